@@ -102,11 +102,12 @@ pub const BPF_TRACE_PRINTK_IDX: u32 = 6;
 #[cfg(feature = "std")]
 pub fn bpf_trace_printf(unused1: u64, unused2: u64, arg3: u64, arg4: u64, arg5: u64) -> u64 {
     println!("bpf_trace_printf: {arg3:#x}, {arg4:#x}, {arg5:#x}");
-    let size_arg = |x| {
+    // Number of hexadecimal digits of x. An integer logarithm: the f64 one rounds for large values.
+    let size_arg = |x: u64| {
         if x == 0 {
             1
         } else {
-            (x as f64).log(16.0).floor() as u64 + 1
+            u64::from(x.ilog(16)) + 1
         }
     };
     "bpf_trace_printf: 0x, 0x, 0x\n".len() as u64 + size_arg(arg3) + size_arg(arg4) + size_arg(arg5)
